@@ -6,16 +6,24 @@ RANDOM_CLAUSES_C18 = ["C18_Due", "C18_Once", "C18_Range", "C18_Pure", "C18_Stabl
 C13_CLAUSES_RANDOM = ["C13_QueueSound_Random", "C13_QueueComplete_Random", "C13_OnceOnTime_Random", "C13_NoHalt"]
 
 RANDOM_RND = T(
-    [dict(n=8, len=25, procs=6, cfg="users=3,provs=2,funds=25,timeout=2"),
-     dict(n=8, len=25, procs=6, cfg="users=2,provs=1,funds=35,timeout=3,maxn=4"),
+    # far=1: block intervals at and around the largest accepted one (due height MaxInt64, logged as 2^30)
+    [dict(n=8, len=25, procs=6, cfg="users=3,provs=2,funds=25,timeout=2,far=1"),
+     dict(n=8, len=25, procs=6, cfg="users=2,provs=1,funds=35,timeout=3,maxn=4,far=1"),
      dict(n=5, len=25, procs=2, cfg="users=3,provs=1,bound=0,funds=25,timeout=2,zh=1")],
-    [dict(n=60, len=30, procs=7, cfg="users=3,provs=2,funds=25,timeout=2"),
-     dict(n=60, len=40, procs=7, cfg="users=4,provs=1,funds=35,timeout=3,maxn=5"),
+    [dict(n=60, len=30, procs=7, cfg="users=3,provs=2,funds=25,timeout=2,far=1"),
+     dict(n=60, len=40, procs=7, cfg="users=4,provs=1,funds=35,timeout=3,maxn=5,far=1"),
      dict(n=30, len=40, procs=4, cfg="users=3,provs=1,bound=0,funds=25,timeout=2,zh=1")])
 # multi-message transactions (runs of one signer's messages delivered as one real transaction)
 bundled(RANDOM_RND)
-RANDOM_GEN = T([dict(cfg="GEN_Random.cfg", num=16, depth=22, seeds=10)],
-               [dict(cfg="GEN_Random.cfg", num=60, depth=26, seeds=14)])
+# second generator mode (round 7, negative probing): GenSpecP = accepted events on the way (seeds written down in unusual
+# ways, malformed seeds of every kind, intervals up to the largest accepted one; at most three messages per block), then
+# four events the specification REJECTS, aimed at the state reached; two provider accounts, one of them unbound
+_PROBE_DRV = "users=2,provs=2,bound=1,funds=25,timeout=2,price=10"
+RANDOM_GEN = T([dict(cfg="GEN_Random.cfg", num=16, depth=22, seeds=10),
+                dict(cfg="GEN_Random_probe.cfg", num=8, depth=28, seeds=4, driver_cfg=_PROBE_DRV)],
+               [dict(cfg="GEN_Random.cfg", num=60, depth=26, seeds=14),
+                dict(cfg="GEN_Random_probe.cfg", num=40, depth=32, seeds=10, driver_cfg=_PROBE_DRV),
+                dict(cfg="GEN_Random_probe.cfg", num=40, depth=20, seeds=4, driver_cfg=_PROBE_DRV)])
 RANDOM_MC = T([dict(cfg="MC_Random.cfg", timeout=1500),
                # restart from a zero-height export (model-level PrepForZeroHeightGenesis / export / import)
                dict(cfg="MC_Random_zh.cfg", timeout=1500)],
@@ -28,7 +36,21 @@ RANDOM_SCN = [dict(file="scenarios/random_cover.ndjson", cfg=RANDOM_GEN_CFG),
               # beyond C18 (diagnostic clauses X18_*): shared ids, late answers, zero-height restart; wrapping intervals (regression of beca1b5: refused)
               dict(file="scenarios/random_dup.ndjson", cfg=RANDOM_GEN_CFG),
               dict(file="scenarios/random_wrap.ndjson", cfg=RANDOM_GEN_CFG),
-              dict(file="scenarios/random_zh.ndjson", cfg="users=2,provs=1,bound=0,funds=25,timeout=2,price=10")]
+              dict(file="scenarios/random_zh.ndjson", cfg="users=2,provs=1,bound=0,funds=25,timeout=2,price=10"),
+              # negative probing / unusual inputs (round 7; written by scenarios/random_mk_probe.py): every antecedent of
+              # PROBE_REQUIRED on every run
+              dict(file="scenarios/random_probe.ndjson", cfg="users=4,provs=2,bound=1,funds=60,timeout=2,price=10")]
+PROBE_REQUIRED = (["seed_short_panic", "far_ok", "far_max", "far_rej", "cap_denom_rej", "cap_zero_rej", "insufficient_rej",
+                   "interval0_ok", "interval1_ok", "respond_before_start", "respond_in_start_block", "respond_consumer",
+                   "respond_wrong_provider", "respond_twice", "same_due_other_blocks", "same_due_consumers", "drop_badhex",
+                   "plain_with_cap", "drop_funds", "skip_batch", "drop_bad"]
+                  + ["ans_" + a for a in ("seed seed_upper seed_dupbody seed_extra seed_dupseed seed_ridlower bad bad_short "
+                                          "bad_long bad_nonhex bad_num bad_extraprop bad_nobody bad_emptybody bad_duplastbad "
+                                          "badhex short err err_err400 err_errout err_ridshort seed_emptyout seed_badresult "
+                                          "seed_nohdr seed_ridshort").split()])
+# the random part of C13 (zz_c13.py reads this name)
+C13_REQUIRED = ["fulfil_block", "same_height_many", "same_due_other_blocks", "same_due_consumers", "drop_timeout", "drop_funds",
+                "far_max", "far_rej", "wrap", "seed_short_panic"]
 
 # histories recorded (VERIF_RECORD_DIR) and replayed by the cross-module checks C11 / C12
 RECORD = [dict(binary="random", n=T(3, 12), len=25, cfg="users=3,provs=2,funds=25,timeout=2" + ",bundle=30")]
@@ -39,10 +61,12 @@ PROPS = {
                        required=["req_ok", "req_oracle_ok", "fulfil_block", "fulfil_oracle", "same_height_many",
                                  "drop_err", "drop_timeout", "dup_id",
                                  # beyond C18
-                                 "dup_replace", "dup_orphan", "dup_rewrite", "late_answer", "wrap", "zero_height"],
+                                 "dup_replace", "dup_orphan", "dup_rewrite", "late_answer", "wrap", "zero_height"]
+                                + PROBE_REQUIRED,
                        gen_cfg=RANDOM_GEN_CFG,
                        assumptions=["TLC 1.8, SANY, CommunityModules Json", "Go toolchain, crypto/sha256, math/big",
-                                    "harness projection functions (raw prefix scans of the random store, service getters)",
+                                    "harness projection functions (the module's gRPC queries for results by id and for the queue by "
+                                    "height / as a whole, cross-checked with raw prefix scans of the random store; service getters)",
                                     "the PRNG is evaluated in Go: the trace carries booleans, SHA-256 is not modelled"]),
 }
 
@@ -63,5 +87,12 @@ TEXT = {
              "in one block share an id by construction and are excluded from Due/Once/Stable as the property's "
              "quantifier says (they are driven and logged anyway). SHA-256 and big-number reduction are not "
              "modelled: Pure compares with the module's own exported generator on independently logged inputs; an "
-             "independent re-implementation in the harness is compared in strict mode only (drift)."),
+             "independent re-implementation in the harness is compared in strict mode only (drift). Round 7 (negative "
+             "probing): a second generator mode ends every behaviour with four rejected events; the pending queue is read "
+             "through the gRPC queries (by height, whole queue) and cross-checked with the raw store; 25 ways of writing a "
+             "seed answer down (malformed seeds of every kind, duplicate members that the schema validator and the handler "
+             "read differently - one of them makes the handler panic, findings/oraclerandom.md R7-1), answers before / in / "
+             "after the due block, by strangers, twice; fee caps of the wrong kind; block intervals up to the largest accepted "
+             "one (due height MaxInt64, logged additively as 2^30) are required antecedents exercised by "
+             "scenarios/random_probe.ndjson."),
 }
